@@ -3,7 +3,7 @@
     [_pick] are in ClusterTopo.v ([rebuild], [pick_slot]).  Selector results and random draws are
     inputs.  Definitions only. *)
 From Coq Require Import List Arith NArith ZArith Bool.
-Require Export RV.Model.Base RV.Model.ClusterTopo.
+Require Export RV.Model.Base RV.Model.ClusterTopo RV.Model.Retry RV.Model.ClusterDo RV.Model.ClusterBatch.
 Import ListNotations.
 Open Scope Z_scope.
 
@@ -54,19 +54,157 @@ Definition sentinel_pick_multi (replica_only has_str : bool) (optins : list bool
   else if has_str then (if forallb (fun b => b) optins then SReplica else SMaster)
   else SMaster.
 
+(** ---- every entry point of the Client interface ---- *)
+Inductive entry := EDo | EDoMulti | EDoCache | EDoMultiCache | EDoStream | EDoMultiStream | EReceive | EDedicated.
+
+(** standalone.go: Do, DoStream and Receive ask SendToReplicas for the command; DoMulti and
+    DoMultiStream for every command of the batch; DoCache, DoMultiCache and Dedicated always use the
+    primary *)
+Definition standalone_entry (e : entry) (has_str : bool) (optins : list bool) (has_sel : bool) (sel : Z) (nnodes nrep rnd : nat)
+  : result dest :=
+  match e with
+  | EDo | EDoStream | EReceive => standalone_route has_str (hd false optins) has_sel sel nnodes nrep rnd
+  | EDoMulti | EDoMultiStream => standalone_route_multi has_str optins has_sel sel nnodes nrep rnd
+  | EDoCache | EDoMultiCache | EDedicated => Ok DPrimary
+  end.
+
+(** sentinel.go: Do, DoCache, DoStream, Receive use [pick]; DoMulti, DoMultiCache, DoMultiStream use
+    [pickMulti (sendAllToReplica…)]; Dedicated takes rConn only on a ReplicaOnly client *)
+Definition sentinel_entry (e : entry) (replica_only has_str : bool) (optins : list bool) : sdest :=
+  match e with
+  | EDo | EDoCache | EDoStream | EReceive => sentinel_pick replica_only has_str (hd false optins)
+  | EDoMulti | EDoMultiCache | EDoMultiStream => sentinel_pick_multi replica_only has_str optins
+  | EDedicated => if replica_only then SReplica else SMaster
+  end.
+
+(** cluster.go.  A command without key slot ([b_slot = None], InitSlot) is sent to an arbitrary
+    connection of [c.conns] by [_pick]: [CAny]. *)
+Inductive cdest := CAny | CNode (a : option addr).
+
+Definition cluster_pick (t : table) (slot : option Z) (to_replica : bool) (nsel : Z) : cdest :=
+  match slot with
+  | None => CAny
+  | Some s => CNode (pick_slot t s to_replica nsel)
+  end.
+
+(** DoMultiStream: the slot is the first key slot of the batch (two different ones panic), the batch
+    goes to a replica only if SendToReplicas holds for every command, with or without key slot *)
+Fixpoint stream_slot (cs : list bcmd) (slot : option Z) : result (option Z) :=
+  match cs with
+  | [] => Ok slot
+  | c :: r =>
+    match b_slot c, slot with
+    | None, _ => stream_slot r slot
+    | Some s, None => stream_slot r (Some s)
+    | Some s, Some s0 => if s =? s0 then stream_slot r slot else Panic
+    end
+  end.
+
+Definition cluster_multistream (t : table) (has_str : bool) (cs : list bcmd) (nsel : Z) : result cdest :=
+  match cs with
+  | [] => Err 1
+  | c0 :: r =>
+    match stream_slot r (b_slot c0) with
+    | Ok slot => Ok (cluster_pick t slot (has_str && forallb b_replica cs) nsel)
+    | Err e => Err e
+    | Panic => Panic
+    end
+  end.
+
+(** the other entry points: Do / DoCache / DoStream / Receive pick by the command's own answer,
+    Dedicated never asks *)
+Definition cluster_entry_single (e : entry) (t : table) (has_str : bool) (c : bcmd) (nsel : Z) : cdest :=
+  match e with
+  | EDedicated => cluster_pick t (b_slot c) false nsel
+  | _ => cluster_pick t (b_slot c) (has_str && b_replica c) nsel
+  end.
+
 (** ---- correspondence cases (printed by harness/cmd/obs_replica) ---- *)
 Definition tabsel (tab : list Z) : Z -> list addr -> Z :=
   fun s _ => match tab with [] => 0 | _ => nth (Z.to_nat (s mod Z.of_nat (length tab))) tab 0 end.
 
+Definition lenient_replica (m impl : result dest) (has_sel : bool) (nrep : nat) : bool :=
+  match m, impl with
+  | Ok (DReplica _), Ok (DReplica j) =>
+    (* the random draw is not observable: any replica index is accepted when no selector decides *)
+    if has_sel then result_eqb dest_eqb m impl else (j <? nrep)%nat
+  | _, _ => result_eqb dest_eqb m impl
+  end.
+
+Definition first_of (l : list addr) : option addr := hd_error l.
+
 Inductive case :=
+| CStandaloneE (e : entry) (has_str : bool) (optins : list bool) (has_sel : bool) (sel : Z) (nnodes nrep : nat) (impl : result dest)
+| CSentinelE (e : entry) (replica_only has_str : bool) (optins : list bool) (impl : sdest)
+| CClusterE (e : entry) (kind : cfgkind) (gs : list (list addr * list (Z * Z))) (rsel : list Z) (nsel : Z) (has_str : bool)
+            (cmds : list bcmd) (conns : list addr) (impl : result (list (list addr)))
 | CStandalone (has_str : bool) (optins : list bool) (batch : bool) (has_sel : bool) (sel : Z) (nnodes nrep : nat)
               (impl : result dest)
 | CSentinel (replica_only has_str : bool) (optins : list bool) (batch : bool) (impl : sdest)
 | CCluster (kind : cfgkind) (gs : list (list addr * list (Z * Z))) (rsel : list Z) (slot : Z) (to_replica : bool) (nsel : Z)
            (impl : list addr).     (* the nodes of the shard that received the command, in order *)
 
+(** the node a command was first sent to agrees with a model destination; ReplicaOnly draws at random *)
+Definition cdest_ok (kind : cfgkind) (groups : list group) (slot : option Z) (conns : list addr) (d : cdest) (got : list addr) : bool :=
+  match d, first_of got with
+  | CAny, Some a => mem_addr a conns
+  | CAny, None => true
+  | CNode (Some a), Some first =>
+    match kind, slot with
+    | CfgReplicaOnly, Some s =>
+      match last_owner groups s with
+      | Some g => match g_nodes g with
+                  | _ :: ((_ :: _) as reps) => mem_addr first reps
+                  | _ => addr_eqb a first
+                  end
+      | None => false
+      end
+    | _, _ => addr_eqb a first
+    end
+  | CNode None, None => true
+  | _, _ => false
+  end.
+
 Definition check_case (c : case) : bool :=
   match c with
+  | CStandaloneE e has_str optins has_sel sel nnodes nrep impl =>
+    lenient_replica (standalone_entry e has_str optins has_sel sel nnodes nrep 0) impl has_sel nrep
+  | CSentinelE e replica_only has_str optins impl => sdest_eqb (sentinel_entry e replica_only has_str optins) impl
+  | CClusterE e kind gs rsel nsel has_str cmds conns impl =>
+    let groups := map (fun g => mkGroup (fst g) (snd g)) gs in
+    let cfg := mkTcfg kind (tabsel rsel) (fun _ => O) in
+    match rebuild cfg groups with
+    | Ok t =>
+      match e with
+      | EDoMultiStream =>
+        match cluster_multistream t has_str cmds nsel, impl with
+        | Panic, Panic => true
+        | Ok d, Ok got =>
+          let slot := match cmds with c0 :: r => match stream_slot r (b_slot c0) with Ok sl => sl | _ => None end | [] => None end in
+          forallb (cdest_ok kind groups slot conns d) got
+        | _, _ => false
+        end
+      | EDoMulti | EDoMultiCache =>
+        match pick_multi t has_str (fun _ => nsel) (hd_error conns) cmds, impl with
+        | PickPanic, Panic => true
+        | PickOk m _, Ok got =>
+          if forallb (fun c => match b_slot c with None => true | Some _ => false end) cmds
+          then forallb (fun g => match first_of g with Some a => mem_addr a conns | None => true end) got
+          else forallb (fun ag => forallb (fun ic => match nth_error got (fst ic) with
+                                                      | Some g => cdest_ok kind groups (b_slot (snd ic)) conns (CNode (Some (fst ag))) g
+                                                      | None => false
+                                                      end) (rg_cmds (snd ag))) m
+        | PickNone, Ok got => forallb (fun g => match g with [] => true | _ => false end) got
+        | _, _ => false
+        end
+      | _ =>
+        match cmds, impl with
+        | [c0], Ok [got] => cdest_ok kind groups (b_slot c0) conns (cluster_entry_single e t has_str c0 nsel) got
+        | _, _ => false
+        end
+      end
+    | _ => false
+    end
   | CStandalone has_str optins batch has_sel sel nnodes nrep impl =>
     let m := if batch then standalone_route_multi has_str optins has_sel sel nnodes nrep 0
              else standalone_route has_str (hd false optins) has_sel sel nnodes nrep 0 in
